@@ -1151,6 +1151,13 @@ def value_cases(run, g, node, e, depth=3):
             rec(n, x.body, conds | t, d + 1)
             rec(n, x.orelse, conds | f, d + 1)
             return
+        if isinstance(x, ast.BoolOp) and isinstance(x.op, ast.Or) and len(x.values) == 2:
+            # A or B: A when A is true, else B
+            t = cond_forms(run, g, n, x.values[0], True) or {(U(x.values[0]), True)}
+            f = cond_forms(run, g, n, x.values[0], False) or {(U(x.values[0]), False)}
+            rec(n, x.values[0], conds | t, d + 1)
+            rec(n, x.values[1], conds | f, d + 1)
+            return
         if isinstance(x, ast.Name):
             ds = rd.defs_at(n, x.id)
             vals = [(dn, rd.value_of_def(dn, x.id)) for dn in ds]
